@@ -57,7 +57,7 @@ fn write_all_async(w: &mut AsyncPDataWriter<&mut T>, mut data: &[u8], cx: &mut C
 macro_rules! async_vs_sync {
     ($name:ident, $m:expr, $a:expr, $b:expr, $script:expr) => {
         #[kani::proof]
-        #[kani::unwind(26)]
+        #[kani::unwind(66)]
         fn $name() {
             let pc: u8 = kani::any();
             let data: [u8; 12] = kani::any();
